@@ -1,22 +1,10 @@
 package main
 
 import (
-	"fmt"
 	"os"
 
-	"github.com/insomniacslk/dhcp/dhcpv4"
-	"github.com/insomniacslk/dhcp/dhcpv6"
-	"verif/seq/corpus6"
-	"verif/seq/snap"
+	"verif/seq/fw"
+	"verif/seq/props/c08"
 )
 
-func main() {
-	if len(os.Args) > 1 && os.Args[1] == "show" {
-		m := corpus6.RelayChain(1, corpus6.InnerMessage(2), 3)
-		d, _ := dhcpv6.FromBytes(m.ToBytes())
-		fmt.Print(snap.V6(d))
-		p, _ := dhcpv4.FromBytes(corpus6.V4Packet(1).ToBytes())
-		fmt.Print(snap.V4(p))
-		return
-	}
-}
+func main() { c := fw.New("C08", os.Args[1], "exploration"); c08.Run(c); os.Exit(c.Finish()) }
